@@ -3,14 +3,14 @@ import CohdlVerif.Lemmas.C12Subst
 /-! C12 - a concrete design used for the non-vacuity examples of Props/C12.lean -/
 namespace CohdlVerif.C12
 
-/-- example design: a clocked leaf instantiated twice (the second time on slices, keyword arguments in
+/-- example design: a clocked leaf instantiated twice (the second time on element 1 of the ARRAY signal `u`, keyword arguments in
     an order different from the declaration) below a top entity -/
 def leaf0 : Tmpl :=
-  .mk "L" [⟨"a", .inp, ⟨.uns, 4⟩⟩, ⟨"q", .out, ⟨.uns, 4⟩⟩] [⟨"r", ⟨.uns, 4⟩, some 3⟩]
+  .mk "L" [⟨"a", .inp, ⟨.uns, 4⟩⟩, ⟨"q", .out, ⟨.uns, 4⟩⟩] [⟨"r", ⟨.uns, 4⟩, some 3, 1⟩]
     [.reg ⟨"r", 0, 4⟩ (.bin .add 4 (.ref ⟨"r", 0, 4⟩) (.ref ⟨"a", 0, 4⟩)), .comb ⟨"q", 0, 4⟩ (.ref ⟨"r", 0, 4⟩)] .nil
 
 def top0 : Tmpl :=
-  .mk "Top" [⟨"x", .inp, ⟨.uns, 8⟩⟩, ⟨"y", .out, ⟨.uns, 4⟩⟩] [⟨"t", ⟨.uns, 4⟩, some 5⟩, ⟨"u", ⟨.slv, 8⟩, some 255⟩]
+  .mk "Top" [⟨"x", .inp, ⟨.uns, 8⟩⟩, ⟨"y", .out, ⟨.uns, 4⟩⟩] [⟨"t", ⟨.uns, 4⟩, some 5, 1⟩, ⟨"u", ⟨.slv, 4⟩, some 255, 2⟩]
     [.comb ⟨"y", 0, 4⟩ (.bin .xor 4 (.ref ⟨"t", 0, 4⟩) (.ref ⟨"u", 4, 4⟩))]
     (.cons leaf0 [("a", ⟨⟨"x", 0, 4⟩, false⟩), ("q", ⟨⟨"t", 0, 4⟩, true⟩)]
       (.cons leaf0 [("q", ⟨⟨"u", 4, 4⟩, false⟩), ("a", ⟨⟨"x", 4, 4⟩, false⟩)] .nil))
